@@ -11,7 +11,29 @@ TB = ("Trusted: Lean 4.33 kernel; axioms ⊆ {propext, Classical.choice, Quot.so
 
 SEQ = ("Operation-level model: every public operation (publish, connect incl. history replay, client close, stalled/failing writer, hub close, restart) is atomic and followed by quiescence; interleavings inside operations are covered by the region-level model (C06/C07/C13/C14) and its controlled-schedule correspondence. ")
 
+REGION = ("Region-level model (lean/Mercure/Model/Sys.lean): threads with program counters over the synchronisation operations of LocalSubscriber / BoltTransport / LocalTransport, any number of threads, every schedule. Tied to /repo by (a) six variant flags regenerated from the sources on every run (obligation: all repaired) and (b) the controlled-schedule correspondence: the three files holding the hub's synchronisation are rewritten (go/ast, build overlay) to yield before every lock / atomic / channel / Once / bbolt / subscriber-list operation, exactly one goroutine runs at a time following a generated schedule, and the model — as acceptor — must predict every next label, blocked-or-not, return value and the final state. ")
+
 CLAIMED = {
+ "C13": dict(
+   text="Theorems over every schedule: parked before a channel send a publisher always moves (the send succeeds or overflows at once); a thread only ever waits for a lock held by another thread, for open read transactions or for a running Once — never for a subscriber's buffer; and at quiescence a subscriber is flagged disconnected exactly when its stream has been ended (overflow live, during replay or while queued before go-live; client; hub) — cut off, not starved (witness theorem for the code as found: flagged but never closed, F6). Tie: hub histories around the buffer capacity (999..1003 pending, stalled writer, replays larger than the buffer) under synctest, and controlled schedules with capacity 1-3.",
+   note=TB + REGION + "PARTIAL: 'bounded time' is proved as 'never waits for a consumer'; wall-clock bounds belong to the runtime. In the instrumented build the channel capacity is overridable (the only semantic difference from /repo).",
+   technique="Lean 4 proof (inductive invariant over all schedules of the region-level model) + regenerated-flag obligation + controlled-schedule acceptor correspondence",
+   design="§8 C13"),
+ "C14": dict(
+   text="Theorem: no schedule of any well-formed set of operations (Dispatch, AddSubscriber with/without history, RemoveSubscriber, GetSubscribers, Disconnect, consumer receive, Close; both transports; any number of threads) reaches a send on or close of a closed channel; a closed channel is always flagged. Obligation against the regenerated flags: every repair is in the sources, in particular MatchAny only runs under the exclusive transport lock. Witness theorems for the code as found (send on closed channel F7, close of closed channel F8). Tie: controlled schedules (acceptor mode, deadlock detection), the race detector on an unsteered stress of both transports, hub histories (panic oracle).",
+   note=TB + REGION + "PARTIAL: memory-model-level race freedom is argued from the lock discipline and cross-checked dynamically (-race); skipfilter / roaring internals are covered by contract, not modelled. Deadlock freedom: checked on every controlled schedule; the theorem is listed in DESIGN.md when proved.",
+   technique="Lean 4 proof (inductive invariant over all schedules) + regenerated-flag obligation + controlled-schedule acceptor correspondence + race detector",
+   design="§8 C14"),
+ "C16": dict(
+   text="Theorems over the timed model of the connection loop, for all timeouts (0 = disabled), expiry absent or anywhere, arbitrary sorted arrival times, optional client close, any horizon: the deadline is the earlier of maximum duration and token expiry; nothing is written at or after it; consecutive writes are at most one heartbeat apart and an open stream is never silent for a whole interval; with a maximum duration the hub ends the connection itself exactly at deadline − dispatch timeout (not earlier); without one it never ends it by a timer and ends it on the first write attempt at or after the expiry. Tie: the real SubscribeHandler inside a synctest bubble (virtual clock) with a ResponseWriter enforcing the armed write deadline; (virtual time, write | failed write | return) traces compared with the model.",
+   note=TB + "PARTIAL: that net/http honours SetWriteDeadline and that select serves a due timer promptly are runtime assumptions (exact under the virtual clock). Same-instant ties are resolved at random by Go's select: the generator avoids them.",
+   technique="Lean 4 proof (loop invariants by induction on fuel) + differential correspondence under a virtual clock",
+   design="§8 C16"),
+ "C19": dict(
+   text="Theorems over the model of the Caddy module (UnmarshalCaddyfile + Provision) and of the legacy options (ValidateConfig + NewHubFromViper): no publisher key ⇒ rejected; no subscriber key without anonymous ⇒ rejected; invalid origin / version / directive ⇒ rejected; what starts has exactly the configured values or the documented defaults; a started hub has a usable publisher key, and a subscriber key unless anonymous; a duration set to 0 is disabled. The repairs of config.go are regenerated facts (witnesses for F10, F12). Tie: random directive sets through the real Caddy module in process (Caddyfile and JSON forms, three transports) and viper maps through NewHubFromViper; effective options read back and verification key/algorithm probed with the harness's own tokens.",
+   note=TB + "Argument classes (PEM parsing, URL parsing, duration parsing) are decided by libraries and classified by the harness. JWKS URLs need the network: excluded.",
+   technique="Lean 4 proof (decision logic) + regenerated-fact obligation + differential correspondence through the real Caddy module and viper path",
+   design="§8 C19"),
  "C01": dict(
    text="Theorem over every history of public operations on both transports: everything ever handed to a connection — by live fan-out, history replay or subscription events (the ghost log `enq` is fed by every enqueue site) — matched its subscription and, when private, one of the selectors of a mercure.subscribe claim validated under the subscriber key; anonymous connections never receive a private update; subscription events are always private. Tie: histories through the real Hub.ServeHTTP under synctest (every stream parsed and compared with the model after every op), plus controlled schedules on the transports; oracle 'no private update on an unauthorised stream' evaluated on the implementation alone.",
    note=TB + SEQ + "Token verification is C03's; selector semantics C11's.",
